@@ -208,6 +208,9 @@ mod embedded_io;
 #[cfg(test)]
 mod tests;
 
+#[cfg(circular_buffer_verif)]
+mod verif_hooks;
+
 use core::cmp::Ordering;
 use core::fmt;
 use core::hash::Hash;
